@@ -422,6 +422,45 @@ func (g *gen) mutate(s *gSchema, o mutateOpts, c *ctx) *gSchema {
 			}
 			dropColumnFromTable(t, cn)
 			c.count("edit_drop_fk_column")
+		case k == 13 && o.indexes && g.rng.Intn(2) == 0 && len(n.Tables) > 1: // a column name shared by two tables: dropped from the earlier one, its index dropped in a later one
+			done := false
+			for bi := 1; bi < len(n.Tables) && !done; bi++ {
+				b := n.Tables[bi]
+				for ii, ix := range b.Idx {
+					if len(ix.Cols) != 1 || done {
+						continue
+					}
+					cn := ix.Cols[0]
+					for ai := 0; ai < bi && !done; ai++ {
+						a := n.Tables[ai]
+						if a.colIndex(cn) < 0 || len(a.Cols) <= 1 || n.referenced(a.Name, cn) {
+							continue
+						}
+						isKey := false
+						for _, cc := range a.Cols {
+							if cc.Name == cn {
+								for _, op := range cc.Opts {
+									if op.Kind == "pk" {
+										isKey = true
+									}
+								}
+							}
+						}
+						for _, pk := range a.Pk {
+							if pk == cn {
+								isKey = true
+							}
+						}
+						if isKey {
+							continue
+						}
+						dropColumnFromTable(a, cn)
+						b.Idx = append(append([]gIndex{}, b.Idx[:ii]...), b.Idx[ii+1:]...)
+						done = true
+						c.count("edit_cross_table_twin")
+					}
+				}
+			}
 		case k == 13 && o.indexes && o.redefineIndex && len(t.Idx) > 0: // an index keeps its name, moves to another column, and all its old columns are dropped
 			p := g.rng.Intn(len(t.Idx))
 			ix := t.Idx[p]
